@@ -70,7 +70,7 @@ CHECKS = {
         level="model_checking",
         technique="TLA+ spec Vertical (Z2S lookup, rational SDepth) model-checked with TLC (MC_Vertical); trace validation of the real z2s / sdepth / s_stretch / Grid.z_r,z_w (VertTrace)",
         text="TLC checks the lookup identity (pair exists, weight in [0,1], weighted level depth = clamped depth) for every strictly increasing integer level column and depth in the bound and the ordering/interleaving of rational s-level depths for every monotone stretching function on the staggered grid, both transforms; the real z2s is validated exactly on enumerated integer columns, the real sdepth exactly on rational inputs, and s_stretch curves / Grid level depths / lookups on real levels are recorded over a parameter lattice and their invariants evaluated by TLC with interval semantics.",
-        note="Transcendental stretching curves are sampled on a parameter lattice (not exhaustive in parameter space). hc <= h. Lookup needs N >= 2 (N = 1: see C17).",
+        note="Transcendental stretching curves are sampled on a parameter lattice (not exhaustive in parameter space). hc <= h.",
         design="6 C12"),
     "C16": dict(
         level="model_checking",
@@ -100,7 +100,7 @@ CHECKS = {
         level="model_checking",
         technique="Index arithmetic of Interp/Vertical proved in bounds by TLC (MC_Interp InBounds/OwnCellLoaded, MC_Vertical LookupLaw); conformance under NUMBA_BOUNDSCHECK=1: ForceTrace with edge-hugging probes and LadimTrace on fast boundary-bound RK runs",
         text="TLC proves for every sub-rectangle and every position of the clipped region that all four corners and both levels lie inside the loaded arrays. The code is bound to those indices by probes whose node values identify each index (a wrapped negative index changes the integer; a positive overrun raises IndexError under numba's bounds checker), concentrated on the margins of the loaded rectangle, and by end-to-end runs with up to ~0.85 cell per step towards every open boundary with RK2/RK4 whose stage positions must be the clipped ones.",
-        note="The memory access itself is observed only on executed scenarios. Known finding D15 (single-level grid) is reported as KNOWN-FINDING.",
+        note="The memory access itself is observed only on executed scenarios.",
         design="6 C17"),
     "C14": dict(
         level="model_checking",
